@@ -103,6 +103,8 @@ def _stale(path, hours=4.0):
 
 
 def build_lib(variant):
+    if os.environ.get('VERIF_COV') and variant != 'fuzz':
+        variant = 'cov'          # bin/coverage.py: every driver runs against the gcov-instrumented library
     cc, cflags, _ = VARIANTS[variant]
     th = tree_hash()
     key = _sha(th, variant, cc, ' '.join(cflags), ' '.join(COMMON_DEFS))[:16]
@@ -147,6 +149,8 @@ def build_lib(variant):
 
 def build_driver(name, variant, sources=None, extra_cflags=(), extra_ldflags=(), gomp_shim=False, cxx=False):
     """Build /verif/drivers/<name>.c (or given sources) against the variant's library; cached by content."""
+    if os.environ.get('VERIF_COV') and variant != 'fuzz':
+        variant = 'cov'; extra_cflags = list(extra_cflags) + ['-DVERIF_COV']
     lib = build_lib(variant)
     cc, cflags, ldflags = VARIANTS[variant]
     if cxx:
